@@ -41,7 +41,9 @@ def _mk_class(system_ref):
 
 
 class System:
-    def __init__(self, runs, instof, limit):
+    def __init__(self, runs, instof, limit, shared=None, wf=None):
+        """shared = {"rt", "ref", "cls", "dead"}: a runtime that outlives this system (like the module-level
+        basic_runtime); wf: workflow instances of an earlier system used again (in this system's new event loop)."""
         from workflows.plugins.basic import BasicRuntime
         self.runs = list(runs)
         self.instof = dict(instof)
@@ -50,10 +52,31 @@ class System:
         self.loop = vloop.new_loop()
         self._clk = vloop.patched_clocks(self.loop)
         self._clk.__enter__()
-        self.rt = BasicRuntime()
-        ref = [self]
-        cls = _mk_class(ref)
-        self.wf = {i: cls(timeout=None, num_concurrent_runs=self.limit[i], runtime=self.rt) for i in self.insts}
+        if shared is None:
+            self.rt = BasicRuntime()
+            ref = [self]
+            cls = _mk_class(ref)
+            dead = set()
+        else:
+            self.rt, ref, cls, dead = shared["rt"], shared["ref"], shared["cls"], shared["dead"]
+            ref[0] = self
+        if wf is not None:
+            self.wf = dict(wf)
+        else:
+            self.wf = {}
+            for i in self.insts:
+                # adversarial allocation: prefer an object that sits at the address of an instance that has died
+                # (CPython hands freed blocks out again; id(workflow) is only unique among live objects)
+                spare, pick = [], None
+                for _n in range(40 if dead else 1):
+                    w = cls(timeout=None, num_concurrent_runs=self.limit[i], runtime=self.rt)
+                    if not dead or id(w) in dead:
+                        pick = w
+                        break
+                    spare.append(w)
+                self.wf[i] = pick if pick is not None else spare.pop()
+                self.reused_address = getattr(self, "reused_address", 0) + (1 if pick is not None and dead else 0)
+                del spare
         self.handlers = {}
         self.gates = {}
         self.started = set()
@@ -147,6 +170,41 @@ class System:
             pass
         self._clk.__exit__(None, None, None)
         vloop.close_loop(self.loop)
+
+
+def generations(plan, reuse_instances=False):
+    """Successive generations on ONE BasicRuntime (as with the module-level basic_runtime): each generation has its own
+    event loop and -- unless reuse_instances -- its own workflow instances, created after the previous generation's
+    instances were dropped and collected.  Every generation starts all its runs at once and finishes them one by one.
+    plan: [(name, runs, instof, limit)] -> [(name, trace, reused_addresses)]"""
+    import gc
+    from workflows.plugins.basic import BasicRuntime
+    ref = [None]
+    shared = {"rt": BasicRuntime(), "ref": ref, "cls": _mk_class(ref), "dead": set()}
+    out = []
+    keep = None
+    for (name, runs, instof, limit) in plan:
+        s = System(runs, instof, limit, shared=shared, wf=keep if reuse_instances else None)
+        try:
+            tr = [{"cmds": [["start", r] for r in runs], "post": s.apply([["start", r] for r in runs])}]
+            for _k in range(2 * len(runs)):
+                en = [c for c in s.enabled() if c[0] == "finish"]
+                if not en:
+                    break
+                tr.append({"cmds": [list(en[0])], "post": s.apply([en[0]])})
+            out.append((name, tr, getattr(s, "reused_address", 0)))
+        finally:
+            s.close()
+        if reuse_instances:
+            keep = dict(s.wf)
+        else:
+            shared["dead"] |= {id(w) for w in s.wf.values()}
+        s.handlers.clear()
+        s.wf = {}
+        ref[0] = None
+        del s
+        gc.collect()
+    return out
 
 
 def run_schedule(runs, instof, limit, schedule, filter_enabled=False):
